@@ -622,7 +622,7 @@ fn replay_flags_variant(case: &Value, rep: &mut Report, rng: &mut Rng, kinds: &[
         nets::copy_params(&a, &mut t);
         let pa: Vec<Vec<f32>> = vx.iter().map(|x| flat(&a.predict(x))).collect();
         let pt: Vec<Vec<f32>> = vx.iter().map(|x| flat(&t.predict(x))).collect();
-        let last = if hasval { Some((vl[vl.len() - 1], va[va.len() - 1])) } else { None };
+        let last = if hasval && !vl.is_empty() { Some((vl[vl.len() - 1], va[va.len() - 1])) } else { None };
         (pa, pt, last, t.validate(&vx, &vy, 1e-6))
     });
     rep.checks += 1;
@@ -879,7 +879,8 @@ pub fn record_training(seed: u64, tier: &str, trace: &mut Vec<Value>, rep: &mut 
             arch,
             n,
             batch: if big { rng.range(65, n as i64 + 2) as usize } else { rng.range(1, n as i64 + 2) as usize },
-            epochs: if diverging { 8 } else { rng.range(1, 4) as usize },
+            // (one run in eleven has an epoch budget of zero: LearnBegin is followed directly by LearnEnd)
+            epochs: if diverging { 8 } else if run % 11 == 3 { 0 } else { rng.range(1, 4) as usize },
             nval: if with_val { *rng.pick(&[1usize, 3, 64, 65, 130]) } else { 0 },
             tol: rng.range(1, 3) as usize,
             threads: *rng.pick(&[1usize, 2, 3, 4, 8]),
